@@ -147,6 +147,9 @@ def generate(tier, rng):
         src = "\n".join(stmts)
         fl = flags_of(stmts, has_assign)
         yield dict(sx=sx(["bc", 1, fl, q(src)]), impl=dict(src=src, plan=1), tags=dict(stream=stream, assign=int(has_assign)))
+        if i % 4 == 0:
+            # the same program once more, additionally re-evaluating the loaded program (informative, see Model/Bytecode.v)
+            yield dict(sx=sx(["bc", 1, fl + ["restep"], q(src)]), impl=dict(src=src, plan=1, restep=1), tags=dict(stream=stream + "+restep", assign=int(has_assign)))
     reps = 1 if tier == "quick" else 5
     for _ in range(reps):
         for src in WIDE:
